@@ -658,13 +658,31 @@ pub fn fuzz_part() -> CustomPart {
                     // a crash counts only if the in-binary oracle reproduces it
                     let mut ctx = CaseCtx::new(findings, false);
                     let mut obs = Obs::default();
-                    match oracle::run_target(t, &b, &mut obs) {
-                        Ok(()) => stats.label(&format!("fuzz:{t}:artifact-not-reproduced-in-binary")),
-                        Err(f) => match ctx.fail(f.sig.clone(), f.msg.clone()) {
+                    // cargo-fuzz compiles with --cfg fuzzing, under which bitcode accepts trailing
+                    // bytes; the normal build rejects them. So an artifact that passes here is
+                    // retried on its own prefixes (the image without the trailing garbage).
+                    let mut hit: Option<(Vec<u8>, oracle::OFail)> = match oracle::run_target(t, &b, &mut obs) {
+                        Ok(()) => None,
+                        Err(f) => Some((b.clone(), f)),
+                    };
+                    if hit.is_none() {
+                        let keep = usize::from(t == "frame" || t == "wal");
+                        for cut in (keep..b.len()).rev() {
+                            let mut o = Obs::default();
+                            if let Err(f) = oracle::run_target(t, &b[..cut], &mut o) {
+                                hit = Some((b[..cut].to_vec(), f));
+                                stats.label(&format!("fuzz:{t}:artifact-reproduced-on-a-prefix"));
+                                break;
+                            }
+                        }
+                    }
+                    match hit {
+                        None => stats.label(&format!("fuzz:{t}:artifact-not-reproduced-in-binary")),
+                        Some((bytes, f)) => match ctx.fail(f.sig.clone(), f.msg.clone()) {
                             Ok(()) => stats.excluded(&f.sig),
                             Err(fl) => {
                                 if violation.is_none() {
-                                    violation = Some((json!({"target": t, "hex": hex(&b), "from": "libfuzzer artifact"}), fl));
+                                    violation = Some((json!({"target": t, "hex": hex(&bytes), "from": "libfuzzer artifact"}), fl));
                                 }
                             },
                         },
@@ -724,6 +742,45 @@ pub fn calibrate(args: &[String]) -> i32 {
     }
     for (t, (r, a, l)) in worst {
         println!("{t}: worst allocation/input = {r:.0} ({a} bytes from {l} input bytes)");
+    }
+    0
+}
+
+/// `nv_c20 child probe`: hand-written minimal inputs for decoder defects, with the signature the
+/// oracle gives each (documentation aid for known_findings.json; not part of the check).
+pub fn probe(_args: &[String]) -> i32 {
+    use std::collections::BTreeMap;
+    use tensor_compress::format::*;
+    use tensor_compress::{CompressionConfig, RleEncoded, TTCore};
+    let snap_of = |v: CompressedValue| -> Vec<u8> {
+        let mut fields = BTreeMap::new();
+        fields.insert("f".to_string(), v);
+        CompressedSnapshot { header: Header::new(CompressionConfig::default(), 1), entries: vec![CompressedEntry { key: "k".into(), fields }] }
+            .serialize()
+            .unwrap_or_default()
+    };
+    let core = |shape: (usize, usize, usize), n: usize| TTCore { data: vec![1.0; n], shape };
+    let cases: Vec<(&str, &str, Vec<u8>)> = vec![
+        ("sparse dimension 2^62", "csnap", snap_of(CompressedValue::VectorSparse { dimension: 1 << 62, positions: vec![], values: vec![] })),
+        ("sparse dimension 2^40", "csnap", snap_of(CompressedValue::VectorSparse { dimension: 1 << 40, positions: vec![], values: vec![] })),
+        ("sparse position outside dimension", "csnap", snap_of(CompressedValue::VectorSparse { dimension: 4, positions: vec![9], values: vec![1.0] })),
+        ("sparse one position, two values", "csnap", snap_of(CompressedValue::VectorSparse { dimension: 4, positions: vec![1], values: vec![1.0, 2.0] })),
+        ("tt shape product overflows", "csnap", snap_of(CompressedValue::VectorTT { cores: vec![core((1, 2, 1), 2), core((1, 2, 1), 2)], original_dim: 4, shape: vec![usize::MAX, 2], ranks: vec![1, 1, 1] })),
+        ("tt core shape larger than its data", "csnap", snap_of(CompressedValue::VectorTT { cores: vec![core((1, 2, 2), 2), core((2, 2, 1), 4)], original_dim: 4, shape: vec![2, 2], ranks: vec![1, 2, 1] })),
+        ("tt shape entry 0", "csnap", snap_of(CompressedValue::VectorTT { cores: vec![core((1, 2, 1), 2), core((1, 2, 1), 2)], original_dim: 4, shape: vec![0, 2], ranks: vec![1, 1, 1] })),
+        ("tt fewer shape entries than cores", "csnap", snap_of(CompressedValue::VectorTT { cores: vec![core((1, 2, 1), 2), core((1, 2, 1), 2)], original_dim: 4, shape: vec![4], ranks: vec![1, 1, 1] })),
+        ("rle run length without value", "csnap", snap_of(CompressedValue::RleInt(RleEncoded { values: vec![], run_lengths: vec![u32::MAX] }))),
+        ("log prefix 0xFFFFFFFF (store)", "wal", vec![0, 0xff, 0xff, 0xff, 0xff, 0, 0, 0, 0]),
+        ("log prefix 0xFFFFFFFF (raft)", "wal", vec![1, 0xff, 0xff, 0xff, 0xff, 0, 0, 0, 0]),
+        ("log prefix 0xFFFFFFFF (tx)", "wal", vec![2, 0xff, 0xff, 0xff, 0xff, 0, 0, 0, 0]),
+    ];
+    std::panic::set_hook(Box::new(|_| {}));
+    for (what, target, bytes) in cases {
+        let mut obs = Obs::default();
+        match oracle::run_target(target, &bytes, &mut obs) {
+            Ok(()) => println!("{what}: ok {:?}", obs.labels),
+            Err(f) => println!("{what}: sig={} :: {}", f.sig, f.msg),
+        }
     }
     0
 }
